@@ -260,6 +260,7 @@ static Space make_space(const std::string& id);
 struct Rec { long parent; int op; std::string hash; bool fatal; std::string summary; };
 static std::string g_out;
 static FILE* g_log;
+static int g_op_timeout = 60;  // seconds; generous: a transition takes milliseconds (ASan: tens of ms)
 static void defaults_for(const std::string& sol) {  // in a throw-away child: capture the fresh instance of `sol` in both registries
   for (int reg = 0; reg < 2; reg++) {
     int pfd[2]; if (pipe(pfd)) exit(2); pid_t pid = fork();
@@ -362,16 +363,19 @@ int main(int argc, char** argv) {
           fflush(fo);
           pid_t c = fork();
           if (c == 0) {  // child: replay the history of state si
+            alarm(g_op_timeout * 4);
             g_cap = g_out + ".cap." + std::to_string(getpid());
             Model M; std::string v; bool f; std::string ev;
             for (auto& o : SP.prefix) step(o, M, v, f, ev);
             for (int k : states[si].hist) { std::string vv; step(SP.ops[k], M, vv, f, ev); }
             std::string h = hash128(observe_real(M));
+            alarm(0);
             if (h != states[si].hash) { fprintf(fo, "H\t%zu\treplay of the shortest history does not reproduce the recorded observation\n", si); fflush(fo); unlink(g_cap.c_str()); _exit(3); }
             for (size_t k = 0; k < SP.ops.size(); k++) {
               fflush(fo); int pfd[2]; if (pipe(pfd)) _exit(4);
               pid_t g = fork();
-              if (g == 0) {  // grandchild: one operation
+              if (g == 0) {  // grandchild: one operation (watchdog: a hang is reported as termination by SIGALRM)
+                alarm(g_op_timeout);
                 close(pfd[0]); g_cap = g_out + ".cap." + std::to_string(getpid());
                 // a fatal error in the exit() build ends this process inside step(): announce the attempt first
                 std::string viol, evalrec; bool fatal = false; Model M2 = M;
@@ -470,7 +474,7 @@ static Space make_space(const std::string& id) {
     const Sol& d = DEFAULTS[0][sol]; const Sol& od = DEFAULTS[0][other];
     S.prefix = {opInit(0, "A", sol), opInit(0, "B", sol), opInit(0, "C", other), opInit(1, "A", sol), opSel(0, "A")};
     for (const char* h : {"A", "B", "C"}) S.ops.push_back(opSel(0, h));
-    if (!d.pn.empty()) { S.ops.push_back(opSet(0, d.pn[d.pn.size() / 2], 7.5L)); S.ops.push_back(opSet(1, d.pn[d.pn.size() / 2], 7.5L)); }
+    if (!d.pn.empty()) { S.ops.push_back(opSet(0, d.pn[d.pn.size() / 2], 7.5L)); S.ops.push_back(opSet(1, d.pn[d.pn.size() / 2], 7.5L)); if (d.pn.size() > 1) S.ops.push_back(opSet(0, d.pn[0], 1.75L)); }
     S.ops.push_back(opSet(0, od.pn[0], 7.5L));
     if (!d.vn.empty()) S.ops.push_back(opSetVec(0, d.vn[0], 3));
     int ne = 0;
